@@ -11,7 +11,9 @@ use xot::{NameId, NamespaceId, PrefixId, Xot};
 
 const S: [&str; 8] = ["", "a", "b", "id", "space", "xml", XML_NS, "urn:x"];
 const NSJ: [usize; 3] = [0, 6, 7];
-const DOCS: [&str; 4] = [
+const DOCS: [&str; 6] = [
+    "<r xmlns:b=\"urn:x\"><a xmlns:b=\"urn:y\" b:id=\"1\"/><a b:id=\"2\"/><b:a/></r>",
+    "<a xmlns=\"urn:x\"><?id d?><id id=\"1\"/><?a?></a>",
     "<a xmlns=\"urn:x\"><b id=\"1\" xml:space=\"default\"/></a>",
     "<b:a xmlns:b=\"urn:x\" b:id=\"1\" xml:id=\"i\"/>",
     "<a xmlns:xml=\"http://www.w3.org/XML/1998/namespace\"><space/><id/></a>",
@@ -133,6 +135,15 @@ impl Mirror {
                 // walk the tree; every name / namespace / prefix id seen is an implicit registration
                 let nodes: Vec<xot::Node> = self.xot.descendants(doc).collect();
                 for n in nodes {
+                    if let Some(pi) = self.xot.processing_instruction(n) {
+                        let t = pi.target();
+                        let (l, ns) = self.xot.name_ns_str(t);
+                        let (l, ns) = (l.to_string(), ns.to_string());
+                        if !ns.is_empty() {
+                            fails.push(("parse|pi-target-in-namespace".into(), format!("{:?}", (l.clone(), ns.clone()))));
+                        }
+                        self.note_name(&l, &ns, t, "parse", fails);
+                    }
                     if let Some(e) = self.xot.element(n) {
                         let nm = e.name();
                         let (l, ns) = self.xot.name_ns_str(nm);
